@@ -91,6 +91,9 @@ def _param_unassigned(fn: Func, name: str) -> bool:
 
 def check(ck: Checker) -> None:
     _lints(ck, "C06.aliasing", "hashfile.gc")
+    from . import round4 as _r4
+
+    _r4.hashinfo_from_dict_strict(ck, "C06.used")
     prog, res = ck.prog, ck.res
     ck.decided = [
         "C06.arity: every iteration over a Tree in gc unpacks as many values as Tree.__iter__ yields",
